@@ -1,11 +1,14 @@
 ------------------------------ MODULE FzfPreview ------------------------------
 (* The previewer of interactive fzf (src/terminal.go Loop(): previewer goroutine, its reader / ticker / watcher     *)
-(* goroutines per command, refreshPreview, cancelPreview / killPreview, the render loop's reqList and                *)
-(* reqPreviewDisplay handling, the exit path; src/util/util_unix.go KillCommand = SIGKILL to the process group).     *)
+(* goroutines per command, refreshPreview, cancelPreview / killPreview, the render loop's reqList,                   *)
+(* reqPreviewDisplay / reqPreviewRefresh / reqPreviewDelayed handling, printPreview / renderPreviewArea, the exit    *)
+(* path; src/util/util_unix.go KillCommand = SIGKILL to the process group).                                          *)
 (*                                                                                                                    *)
 (* One action per critical section / channel operation:                                                              *)
-(*   user        Move, EditQuery, Toggle, TogglePreview, Exit      (one iteration of the action loop, under t.mutex)  *)
-(*   render loop Render (reqList: focus or t.version changed -> refreshPreview), RefreshSet, Display                  *)
+(*   user        Move, EditQuery, Toggle, TogglePreview, Scroll, Rewrap, Exit   (one iteration of the action loop,    *)
+(*               under t.mutex)                                                                                       *)
+(*   render loop Render (reqList: focus or t.version changed -> refreshPreview), RefreshSet, Display (DisplayFull /   *)
+(*               DisplayAppend), Repaint (reqPreviewRefresh), Loading (reqPreviewDelayed)                             *)
 (*               refreshPreview = TRY-SEND `cancel` on the unbuffered killChan, THEN overwrite the one-slot           *)
 (*               previewBox: two steps (the previewer and the watcher do not take t.mutex, so they interleave)        *)
 (*   exit path   Exit (previewBox.Set(reqQuit); EvtQuit), ExitKill (TRY-SEND `kill`), ExitCtx (cancel()),             *)
@@ -15,8 +18,22 @@
 (*   ticker      TickDisplay (partial output rendered while the command runs; sets `rendered`)                        *)
 (*   watcher     WatchEnter (reaches its select), the receiving half of a try-send (cancel: kill at once if output    *)
 (*               was rendered, else wait previewCancelWait; kill: at once), WatchTimer (delay over), WatchKill        *)
-(*               (util.KillCommand), WatchFinish, WatchCtx (ctx.Done: leaves WITHOUT killing)                         *)
-(*   command     CmdOutput, CmdExit (finite commands only); it dies at once when the group is SIGKILLed               *)
+(*               (util.KillCommand), WatchFinish, WatchCtx (ctx.Done: leaves WITHOUT killing), WatchDelayed (the      *)
+(*               previewDelayed timer fires while it sits in its select: reqBox.Set(reqPreviewDelayed, version))      *)
+(*   command     CmdOutput (one more LINE), CmdExit (finite commands only); dies at once when the group is SIGKILLed  *)
+(*                                                                                                                    *)
+(* WHAT THE WINDOW SHOWS.  The output of the command for request r is the sequence of lines <<r,1>> .. <<r,N(r)>>    *)
+(* (N: shorter than, equal to, taller than the window of H rows - constant Lens).  `screen` is the sequence of the    *)
+(* H rows of the preview window.  t.previewer.{version, lines, offset} = shown.ver, the first shown.n lines of        *)
+(* shown.req, poff; t.previewed.{version, numLines, offset, filled} = pd (pd.req: ghost - whose lines rows 2..H were *)
+(* painted from).  printPreview (Paint) does what the code does:                                                      *)
+(*   DisplayFull    every row is replaced by the window [poff+1 .. poff+H] of the lines; rows beyond the output are   *)
+(*                  cleared (FinishFill); filled := the lines reach the last row                                      *)
+(*   DisplayAppend  the optimisation `unchanged` = (filled \/ same number of lines) /\ same version /\ same offset:   *)
+(*                  only the FIRST row is repainted (it carries the spinner / scroll indicator); lines a running      *)
+(*                  command appended since land below the fold of a full window, or there are none                   *)
+(* The offset is reset by the FIRST result of a version only (result.offset >= 0; later ones carry -1); the result    *)
+(* box has one slot, a later result of the same command overwrites an unhandled earlier one.                          *)
 (*                                                                                                                    *)
 (* The try-send is modelled exactly: it is taken iff the watcher is in its select (wst = "selecting"), otherwise it   *)
 (* is DROPPED.  A drop that matters is a named deviation recorded in `dev` (finding F6):                              *)
@@ -30,45 +47,74 @@
 (*                   while the window was hidden) and does not refresh: move away, show, move back (found by TLC      *)
 (*                   with 4 user actions, reproduced on the real binary with `up+toggle-preview+down`; finding F18,  *)
 (*                   fixed in /repo by bumping t.version in that branch: ShowBumpsVersion = TRUE)                    *)
+(*   StaleRows       DisplayAppend taken although rows 2..H hold lines of ANOTHER request: reqPreviewDelayed assigns  *)
+(*                   the new command's version to t.previewer.version while t.previewer.lines are still the old       *)
+(*                   ones; a Repaint in that state (scroll there and back, toggle-preview-wrap) records the new       *)
+(*                   version in t.previewed together with filled = TRUE of the OLD lines; the new command's result    *)
+(*                   then counts as `unchanged` (found by TLC on this module, MC_Preview_dev_rows.cfg; reproduced on  *)
+(*                   the real binary: finding F24).  DelayedSetsVersion = FALSE is the code without that assignment.  *)
+(*   LateLoading     a reqPreviewDelayed request is handled only after a result of a NEWER command was taken over   *)
+(*                   (the render loop would have to sleep through a kill, a reap and a start): the version goes back  *)
+(*   LostOffsetReset the first result of a command (the only one that resets the scroll offset) is overwritten in     *)
+(*                   the one-slot box by a later result of the same command before the render loop saw it             *)
 (* The properties are proved on the behaviours in which no deviation fired (dev = {}); MC_Preview_dev*.cfg check the *)
 (* strict versions and keeps TLC's counterexamples.                                                                   *)
-EXTENDS Integers, Sequences, FiniteSets, TLC
+EXTENDS Integers, Sequences, FiniteSets, TLC, FzfPreviewTree
 
 CONSTANTS MaxUI,          \* bound on user actions
           Kinds,          \* what a preview command may be: subset of {"finite", "endless"}
           TemplateHasQ,   \* the preview template contains {q} (query edits then refresh the preview)
-          ShowBumpsVersion \* toggle-preview bumps t.version (fix 525f2ed for finding F18); FALSE = the code before the fix
+          ShowBumpsVersion, \* toggle-preview bumps t.version (fix 525f2ed for finding F18); FALSE = the code before the fix
+          H,              \* rows of the preview window
+          LensKind,       \* "mixed": outputs shorter than, equal to and taller than the window; "one": one line each
+          WithScroll,     \* the user may scroll the preview (preview-up / preview-down) and toggle its wrap mode
+          DelayedSetsVersion  \* reqPreviewDelayed assigns t.previewer.version (finding F24); FALSE = the version is handed to
+                              \* printPreviewDelayed instead.  The cfgs take it from FzfPreviewTree (`<- TreeDelayedSetsVersion`, the one
+                              \* switch that says which previewer the checked tree has) unless they pin it on purpose
 
 None == [none |-> TRUE]
+(* Lens[focus + 2 * q] = number of lines the command for that line / query prints *)
+Lens == IF LensKind = "mixed" THEN <<3, 1, 2, 3>> ELSE <<1, 1, 1, 1>>
+Blank == <<None, 0>>                              \* an empty row
 
 VARIABLES focus, q, sel, tver, visible, acts,     \* terminal state (t.cy's item, t.input, t.selected, t.version, preview window)
           dirty, rfocus, rver,                    \* render loop: reqList pending; focusedIndex / version it last acted on
           uipc, ureq,                             \* continuation of a critical section: idle | set | quit2 | quit3 | quit4
           pbox, pquit,                            \* previewBox: the pending request (or None), reqQuit
           pst, pver, preq,                        \* previewer: wait | picked | running | reaping | stopped
-          wst,                                    \* watcher: none | starting | selecting | delaying | killing | done
-          cst, ckind, cout, rendered, fin,        \* command: none | running | exited | killed; output written; finishChan
-          dbox, shown,                            \* reqBox[reqPreviewDisplay] (one slot) and what the preview window holds
+          wst, dtimer,                            \* watcher: none | starting | selecting | delaying | killing | done; its previewDelayed timer armed
+          cst, ckind, cout, rendered, ticked, fin, \* command: none | running | exited | killed; lines written; ticker: rendered / lines it sent last; finishChan
+          dbox, refbox, delbox,                   \* reqBox[reqPreviewDisplay] (one slot: [ver, req, n, off]), [reqPreviewRefresh], [reqPreviewDelayed] (a version, 0 = empty)
+          shown, poff,                            \* t.previewer: version + lines (the first n lines of the output for req), scroll offset
+          pd, screen,                             \* t.previewed: [ver, n, off, filled] (+ ghost req); the rows of the window
           quitting, ctxDone, procExited,
           alive, lastStarted, lastEnq, dev        \* ghosts: versions whose process group is alive; request started / announced last
-vars == <<focus, q, sel, tver, visible, acts, dirty, rfocus, rver, uipc, ureq, pbox, pquit, pst, pver, preq, wst, cst, ckind,
-          cout, rendered, fin, dbox, shown, quitting, ctxDone, procExited, alive, lastStarted, lastEnq, dev>>
+vars == <<focus, q, sel, tver, visible, acts, dirty, rfocus, rver, uipc, ureq, pbox, pquit, pst, pver, preq, wst, dtimer, cst, ckind,
+          cout, rendered, ticked, fin, dbox, refbox, delbox, shown, poff, pd, screen, quitting, ctxDone, procExited, alive,
+          lastStarted, lastEnq, dev>>
 
 uiVars   == <<focus, q, sel, tver, visible, acts>>
 rendVars == <<dirty, rfocus, rver>>
 pvVars   == <<pst, pver, preq>>
-cmdVars  == <<cst, ckind, cout, rendered, fin>>
+cmdVars  == <<cst, ckind, cout, rendered, ticked, fin>>
 endVars  == <<quitting, ctxDone, procExited>>
+winVars  == <<shown, poff, pd, screen>>            \* what the render loop knows and painted
+boxVars  == <<dbox, refbox, delbox>>
 
 (* the request for the present terminal state: what {} {n} {f}, {q}, {+} {+n} {+f} would be substituted with *)
 CurReq == [focus |-> focus, q |-> IF TemplateHasQ THEN q ELSE 0, sel |-> sel]
+(* how many lines the command for a request prints *)
+NLines(r) == Lens[r.focus + 2 * r.q]
+NoLines == [ver |-> 0, req |-> None, n |-> 0]
 
 Init == /\ focus = 1 /\ q = 0 /\ sel = 0 /\ tver = 0 /\ visible = TRUE /\ acts = 0
         /\ dirty = TRUE /\ rfocus = 0 /\ rver = -1
         /\ uipc = "idle" /\ ureq = None /\ pbox = None /\ pquit = FALSE
-        /\ pst = "wait" /\ pver = 0 /\ preq = None /\ wst = "none"
-        /\ cst = "none" /\ ckind = "finite" /\ cout = FALSE /\ rendered = FALSE /\ fin = FALSE
-        /\ dbox = None /\ shown = None
+        /\ pst = "wait" /\ pver = 0 /\ preq = None /\ wst = "none" /\ dtimer = FALSE
+        /\ cst = "none" /\ ckind = "finite" /\ cout = 0 /\ rendered = FALSE /\ ticked = 0 /\ fin = FALSE
+        /\ dbox = None /\ refbox = FALSE /\ delbox = 0
+        /\ shown = NoLines /\ poff = 0
+        /\ pd = [ver |-> 0, n |-> 0, off |-> 0, filled |-> FALSE, req |-> None] /\ screen = [r \in 1..H |-> Blank]
         /\ quitting = FALSE /\ ctxDone = FALSE /\ procExited = FALSE
         /\ alive = {} /\ lastStarted = None /\ lastEnq = None /\ dev = {}
 
@@ -79,37 +125,90 @@ InFlightForCancel == pst = "picked" \/ wst = "starting"
 InFlightForKill   == pst = "picked" \/ wst \in {"starting", "delaying"}
 Killed == /\ cst' = (IF cst = "running" THEN "killed" ELSE cst) /\ alive' = {} /\ wst' = "done"
 
-TrySend(immediately) ==
+TrySendDev(immediately) ==
+    IF wst = "selecting" THEN {}
+    ELSE IF immediately THEN (IF InFlightForKill THEN {"LostKillAtExit"} ELSE {})
+                        ELSE (IF InFlightForCancel THEN {"LostCancel"} ELSE {})
+(* the part of the try-send that concerns the watcher and the command (dev is assigned by the caller) *)
+TrySendW(immediately) ==
     IF wst = "selecting"
     THEN /\ wst' = (IF immediately \/ rendered THEN "killing" ELSE "delaying")
-         /\ UNCHANGED <<cst, alive, dev>>
-    ELSE /\ UNCHANGED <<wst, cst, alive>>          \* dropped
-         /\ dev' = dev \cup (IF immediately THEN (IF InFlightForKill THEN {"LostKillAtExit"} ELSE {})
-                             ELSE (IF InFlightForCancel THEN {"LostCancel"} ELSE {}))
+         /\ UNCHANGED <<cst, alive>>
+    ELSE UNCHANGED <<wst, cst, alive>>              \* dropped
+TrySend(immediately) == TrySendW(immediately) /\ dev' = dev \cup TrySendDev(immediately)
+
+-------------------------------------------------------------------------------
+(* printPreview / renderPreviewArea / renderPreviewText for lines = the first n lines of the output for req.        *)
+(* One iteration of the render loop handles ALL pending requests in the order of their keys (reqPreviewDisplay <      *)
+(* reqPreviewRefresh < reqPreviewDelayed) under t.mutex: the handlers are functions on the window state              *)
+Window(req, n, off) == [r \in 1..H |-> IF off + r <= n THEN <<req, off + r>> ELSE Blank]
+FirstRow(req, n, off) == IF off < n THEN <<req, off + 1>> ELSE Blank
+WS == [shown |-> shown, poff |-> poff, pd |-> pd, screen |-> screen, dev |-> dev]
+UnchangedIn(s, v, n, off) == (s.pd.filled \/ n = s.pd.n) /\ v = s.pd.ver /\ off = s.pd.off
+PaintS(s, v, req, n, off) ==
+    IF ~visible THEN s                                                              \* no window: printPreview returns
+    ELSE IF UnchangedIn(s, v, n, off)
+    THEN [s EXCEPT !.screen = [s.screen EXCEPT ![1] = FirstRow(req, n, off)],       \* DisplayAppend: only the first row
+                   !.pd = [s.pd EXCEPT !.n = n],
+                   !.dev = s.dev \cup (IF s.pd.req # req THEN {"StaleRows"} ELSE {})]
+    ELSE [s EXCEPT !.screen = Window(req, n, off),                                  \* DisplayFull: every row
+                   !.pd = [ver |-> v, n |-> n, off |-> off, filled |-> (n - off >= H), req |-> req]]
+(* reqPreviewDisplay: take over version and lines; the first result of a command resets the offset; printPreview *)
+DisplayOff(s) == IF dbox.off >= 0 THEN 0 ELSE s.poff          \* util.Constrain(0, 0, n - 1) = 0
+DisplayS(s) == IF dbox = None THEN s
+               ELSE PaintS([s EXCEPT !.shown = [ver |-> dbox.ver, req |-> dbox.req, n |-> dbox.n], !.poff = DisplayOff(s)],
+                           dbox.ver, dbox.req, dbox.n, DisplayOff(s))
+(* reqPreviewRefresh: printPreview on what t.previewer holds *)
+RepaintS(s) == IF ~refbox THEN s ELSE PaintS(s, s.shown.ver, s.shown.req, s.shown.n, s.poff)
+(* reqPreviewDelayed: t.previewer.version = the version of the command that has been running for previewDelayed;    *)
+(* printPreviewDelayed: unless that version's lines are on display already, the first row is repainted (from the    *)
+(* lines the previewer still holds) to carry "Loading .."                                                             *)
+LoadingS(s) ==
+    IF delbox = 0 THEN s
+    ELSE LET s1 == [s EXCEPT !.shown = (IF DelayedSetsVersion THEN [s.shown EXCEPT !.ver = delbox] ELSE s.shown),
+                             !.dev = s.dev \cup (IF s.shown.ver > delbox THEN {"LateLoading"} ELSE {})]
+         IN IF visible /\ ~(s.shown.n > 0 /\ s.pd.ver = delbox)
+            THEN [s1 EXCEPT !.screen = [s.screen EXCEPT ![1] = FirstRow(s.shown.req, s.shown.n, s.poff)]]
+            ELSE s1
 
 -------------------------------------------------------------------------------
 (* User: one iteration of the action loop; it holds t.mutex, so it excludes the render loop's critical sections *)
 CanAct == uipc = "idle" /\ acts < MaxUI /\ ~quitting /\ ~procExited
 Move == /\ CanAct /\ focus' = 3 - focus /\ dirty' = TRUE /\ acts' = acts + 1
-        /\ UNCHANGED <<q, sel, tver, visible, rfocus, rver, uipc, ureq, pbox, pquit, pvVars, wst, cmdVars, dbox, shown, endVars,
+        /\ UNCHANGED <<q, sel, tver, visible, rfocus, rver, uipc, ureq, pbox, pquit, pvVars, wst, dtimer, cmdVars, boxVars, winVars, endVars,
                        alive, lastStarted, lastEnq, dev>>
 EditQuery == /\ CanAct /\ q' = 1 - q /\ tver' = (IF TemplateHasQ THEN tver + 1 ELSE tver) /\ dirty' = TRUE /\ acts' = acts + 1
-             /\ UNCHANGED <<focus, sel, visible, rfocus, rver, uipc, ureq, pbox, pquit, pvVars, wst, cmdVars, dbox, shown, endVars,
+             /\ UNCHANGED <<focus, sel, visible, rfocus, rver, uipc, ureq, pbox, pquit, pvVars, wst, dtimer, cmdVars, boxVars, winVars, endVars,
                             alive, lastStarted, lastEnq, dev>>
 Toggle == /\ CanAct /\ sel' = 1 - sel /\ tver' = tver + 1 /\ dirty' = TRUE /\ acts' = acts + 1
-          /\ UNCHANGED <<focus, q, visible, rfocus, rver, uipc, ureq, pbox, pquit, pvVars, wst, cmdVars, dbox, shown, endVars,
+          /\ UNCHANGED <<focus, q, visible, rfocus, rver, uipc, ureq, pbox, pquit, pvVars, wst, dtimer, cmdVars, boxVars, winVars, endVars,
                          alive, lastStarted, lastEnq, dev>>
-(* toggle-preview: hiding cancels the running command; showing cancels and enqueues from the action itself *)
+(* toggle-preview: hiding cancels the running command and drops the lines; showing cancels and enqueues from the     *)
+(* action itself.  Either way the windows are laid out again: empty window, t.previewed.version = 0                  *)
 TogglePreview == /\ CanAct /\ visible' = ~visible /\ acts' = acts + 1
                  /\ dirty' = TRUE /\ tver' = (IF ShowBumpsVersion THEN tver + 1 ELSE tver)      \* updatePreviewWindow: reqList
                  /\ TrySend(FALSE)
                  /\ IF visible THEN UNCHANGED <<uipc, ureq, lastEnq>> ELSE (uipc' = "set" /\ ureq' = CurReq /\ lastEnq' = CurReq)
-                 /\ UNCHANGED <<focus, q, sel, rfocus, rver, pbox, pquit, pvVars, ckind, cout, rendered, fin, dbox, shown, endVars,
-                                lastStarted>>
+                 /\ shown' = (IF visible THEN [shown EXCEPT !.n = 0, !.req = None] ELSE shown)
+                 /\ screen' = [r \in 1..H |-> Blank] /\ pd' = [pd EXCEPT !.ver = 0]
+                 /\ UNCHANGED <<focus, q, sel, rfocus, rver, pbox, pquit, pvVars, dtimer, ckind, cout, rendered, ticked, fin, boxVars, poff,
+                                endVars, lastStarted>>
+(* preview-up / preview-down: scrollPreviewTo, then reqPreviewRefresh.  (t.previewer.scrollable is over-approximated:  *)
+(* any output of two lines or more may be scrolled - the code allows it after a repeated display of the same lines)   *)
+Scroll == /\ WithScroll /\ CanAct /\ visible /\ shown.n >= 2
+          /\ \E o \in {poff - 1, poff + 1} : o >= 0 /\ o <= shown.n - 1 /\ poff' = o
+          /\ refbox' = TRUE /\ acts' = acts + 1
+          /\ UNCHANGED <<focus, q, sel, tver, visible, rendVars, uipc, ureq, pbox, pquit, pvVars, wst, dtimer, cmdVars, dbox, delbox, shown, pd, screen,
+                         endVars, alive, lastStarted, lastEnq, dev>>
+(* toggle-preview-wrap: t.previewed.version = 0 ("so that full redraw occurs"), then reqPreviewRefresh *)
+Rewrap == /\ WithScroll /\ CanAct /\ visible
+          /\ pd' = [pd EXCEPT !.ver = 0] /\ refbox' = TRUE /\ acts' = acts + 1
+          /\ UNCHANGED <<focus, q, sel, tver, visible, rendVars, uipc, ureq, pbox, pquit, pvVars, wst, dtimer, cmdVars, dbox, delbox, shown, poff, screen,
+                         endVars, alive, lastStarted, lastEnq, dev>>
 (* any way of leaving (accept, abort, SIGTERM): exit() sets reqQuit on the previewBox, then EvtQuit is set *)
 Exit == /\ CanAct /\ acts' = acts + 1
         /\ pquit' = TRUE /\ quitting' = TRUE /\ uipc' = "quit2"
-        /\ UNCHANGED <<focus, q, sel, tver, visible, rendVars, ureq, pbox, pvVars, wst, cmdVars, dbox, shown, ctxDone, procExited,
+        /\ UNCHANGED <<focus, q, sel, tver, visible, rendVars, ureq, pbox, pvVars, wst, dtimer, cmdVars, boxVars, winVars, ctxDone, procExited,
                        alive, lastStarted, lastEnq, dev>>
 
 -------------------------------------------------------------------------------
@@ -123,26 +222,39 @@ Render == /\ dirty /\ uipc = "idle" /\ ~quitting /\ ~procExited
                      ELSE UNCHANGED <<wst, cst, alive, dev, uipc, ureq, lastEnq>>
              ELSE /\ UNCHANGED <<rfocus, rver, wst, cst, alive, uipc, ureq, lastEnq>>
                   /\ dev' = dev \cup (IF visible /\ lastEnq # CurReq THEN {"StaleAfterShow"} ELSE {})
-          /\ UNCHANGED <<uiVars, pbox, pquit, pvVars, ckind, cout, rendered, fin, dbox, shown, endVars, lastStarted>>
+          /\ UNCHANGED <<uiVars, pbox, pquit, pvVars, dtimer, ckind, cout, rendered, ticked, fin, boxVars, winVars, endVars, lastStarted>>
 RefreshSet == /\ uipc = "set" /\ ~procExited
               /\ pbox' = ureq /\ uipc' = "idle" /\ ureq' = None
-              /\ UNCHANGED <<uiVars, rendVars, pquit, pvVars, wst, cmdVars, dbox, shown, endVars, alive, lastStarted, lastEnq, dev>>
-Display == /\ dbox # None /\ uipc = "idle" /\ ~quitting /\ ~procExited
-           /\ shown' = dbox /\ dbox' = None
-           /\ UNCHANGED <<uiVars, rendVars, uipc, ureq, pbox, pquit, pvVars, wst, cmdVars, endVars, alive, lastStarted, lastEnq, dev>>
+              /\ UNCHANGED <<uiVars, rendVars, pquit, pvVars, wst, dtimer, cmdVars, boxVars, winVars, endVars, alive, lastStarted, lastEnq, dev>>
+CanRender == uipc = "idle" /\ ~quitting /\ ~procExited
+RenderPreview ==
+    /\ CanRender /\ (dbox # None \/ refbox \/ delbox # 0)
+    /\ LET s == LoadingS(RepaintS(DisplayS(WS)))
+       IN shown' = s.shown /\ poff' = s.poff /\ pd' = s.pd /\ screen' = s.screen /\ dev' = s.dev
+    /\ dbox' = None /\ refbox' = FALSE /\ delbox' = 0
+    /\ UNCHANGED <<uiVars, rendVars, uipc, ureq, pbox, pquit, pvVars, wst, dtimer, cmdVars, endVars, alive, lastStarted, lastEnq>>
+(* the iterations by what they start with: a result painted in full / a result taken with the optimisation (only   *)
+(* the first row is painted: the rows below already hold the lines, more were appended below the fold) / ...         *)
+AppendAtDisplay == dbox # None /\ visible /\ UnchangedIn(WS, dbox.ver, dbox.n, DisplayOff(WS))
+DisplayFull == dbox # None /\ ~AppendAtDisplay /\ RenderPreview
+DisplayAppend == AppendAtDisplay /\ RenderPreview
+Repaint == dbox = None /\ refbox /\ RenderPreview
+Loading == dbox = None /\ ~refbox /\ delbox # 0 /\ RenderPreview
+Display == DisplayFull \/ DisplayAppend
 
 ExitKill == /\ uipc = "quit2" /\ ~procExited
             /\ TrySend(TRUE) /\ uipc' = "quit3"
-            /\ UNCHANGED <<uiVars, rendVars, ureq, pbox, pquit, pvVars, ckind, cout, rendered, fin, dbox, shown, endVars, lastStarted, lastEnq>>
+            /\ UNCHANGED <<uiVars, rendVars, ureq, pbox, pquit, pvVars, dtimer, ckind, cout, rendered, ticked, fin, boxVars, winVars, endVars,
+                           lastStarted, lastEnq>>
 ExitCtx == /\ uipc = "quit3" /\ ~procExited
            /\ ctxDone' = TRUE /\ uipc' = "quit4"
-           /\ UNCHANGED <<uiVars, rendVars, ureq, pbox, pquit, pvVars, wst, cmdVars, dbox, shown, quitting, procExited, alive,
+           /\ UNCHANGED <<uiVars, rendVars, ureq, pbox, pquit, pvVars, wst, dtimer, cmdVars, boxVars, winVars, quitting, procExited, alive,
                           lastStarted, lastEnq, dev>>
 ProcExit == /\ quitting /\ ~procExited
             /\ procExited' = TRUE
             /\ dev' = dev \cup (IF (uipc = "quit2" /\ (alive # {} \/ pst = "picked")) \/ (wst = "killing" /\ alive # {})
                                THEN {"ExitBeforeKill"} ELSE {})
-            /\ UNCHANGED <<uiVars, rendVars, uipc, ureq, pbox, pquit, pvVars, wst, cmdVars, dbox, shown, quitting, ctxDone, alive,
+            /\ UNCHANGED <<uiVars, rendVars, uipc, ureq, pbox, pquit, pvVars, wst, dtimer, cmdVars, boxVars, winVars, quitting, ctxDone, alive,
                            lastStarted, lastEnq>>
 
 -------------------------------------------------------------------------------
@@ -153,85 +265,113 @@ Pick == /\ pst = "wait" /\ ~procExited /\ (pbox # None \/ pquit)
         /\ IF pquit THEN pst' = "stopped" /\ UNCHANGED <<pver, preq, pbox, dev>>
                     ELSE /\ pst' = "picked" /\ pver' = pver + 1 /\ preq' = pbox /\ pbox' = None
                          /\ dev' = dev \cup (IF uipc = "set" THEN {"LostCancel"} ELSE {})
-        /\ UNCHANGED <<uiVars, rendVars, uipc, ureq, pquit, wst, cmdVars, dbox, shown, endVars, alive, lastStarted, lastEnq>>
+        /\ UNCHANGED <<uiVars, rendVars, uipc, ureq, pquit, wst, dtimer, cmdVars, boxVars, winVars, endVars, alive, lastStarted, lastEnq>>
 Start == /\ pst = "picked" /\ ~procExited
          /\ \E k \in Kinds : ckind' = k
-         /\ pst' = "running" /\ cst' = "running" /\ cout' = FALSE /\ rendered' = FALSE /\ fin' = FALSE /\ wst' = "starting"
+         /\ pst' = "running" /\ cst' = "running" /\ cout' = 0 /\ rendered' = FALSE /\ ticked' = 0 /\ fin' = FALSE
+         /\ wst' = "starting" /\ dtimer' = TRUE
          /\ alive' = alive \cup {pver} /\ lastStarted' = preq
-         /\ UNCHANGED <<uiVars, rendVars, uipc, ureq, pbox, pquit, pver, preq, dbox, shown, endVars, lastEnq, dev>>
+         /\ UNCHANGED <<uiVars, rendVars, uipc, ureq, pbox, pquit, pver, preq, boxVars, winVars, endVars, lastEnq, dev>>
+(* a result put into the one-slot box; only the first one of a command carries the offset reset *)
+Result(n) == [ver |-> pver, req |-> preq, n |-> n, off |-> IF rendered THEN -1 ELSE 0]
+Overwrites == IF dbox # None /\ dbox.ver = pver /\ dbox.off >= 0 /\ rendered THEN {"LostOffsetReset"} ELSE {}
 (* EOF on the pipe (every process of the group is gone), cmd.Wait, the ticker's final display, finishChan <- true *)
 Eof == /\ pst = "running" /\ cst \in {"exited", "killed"} /\ ~procExited
-       /\ dbox' = [ver |-> pver, req |-> preq, out |-> cout] /\ rendered' = TRUE /\ fin' = TRUE /\ pst' = "reaping"
-       /\ UNCHANGED <<uiVars, rendVars, uipc, ureq, pbox, pquit, pver, preq, wst, cst, ckind, cout, shown, endVars, alive,
-                      lastStarted, lastEnq, dev>>
+       /\ dbox' = Result(cout) /\ dev' = dev \cup Overwrites /\ rendered' = TRUE /\ fin' = TRUE /\ pst' = "reaping"
+       /\ UNCHANGED <<uiVars, rendVars, uipc, ureq, pbox, pquit, pver, preq, wst, dtimer, cst, ckind, cout, ticked, refbox, delbox, winVars,
+                      endVars, alive, lastStarted, lastEnq>>
 Reaped == /\ pst = "reaping" /\ wst = "done" /\ ~procExited
           /\ pst' = "wait" /\ wst' = "none" /\ cst' = "none"
-          /\ UNCHANGED <<uiVars, rendVars, uipc, ureq, pbox, pquit, pver, preq, ckind, cout, rendered, fin, dbox, shown, endVars,
-                         alive, lastStarted, lastEnq, dev>>
-(* ticker goroutine: partial output of a running command is rendered (idempotent afterwards) *)
-TickDisplay == /\ pst = "running" /\ cst = "running" /\ cout /\ ~rendered /\ ~procExited
-               /\ dbox' = [ver |-> pver, req |-> preq, out |-> TRUE] /\ rendered' = TRUE
-               /\ UNCHANGED <<uiVars, rendVars, uipc, ureq, pbox, pquit, pvVars, wst, cst, ckind, cout, fin, shown, endVars, alive,
-                              lastStarted, lastEnq, dev>>
+          /\ UNCHANGED <<uiVars, rendVars, uipc, ureq, pbox, pquit, pver, preq, dtimer, ckind, cout, rendered, ticked, fin, boxVars, winVars,
+                         endVars, alive, lastStarted, lastEnq, dev>>
+(* ticker goroutine: partial output of a running command is rendered (repeats with the same lines change nothing) *)
+TickDisplay == /\ pst = "running" /\ cst = "running" /\ cout > ticked /\ ~procExited
+               /\ dbox' = Result(cout) /\ dev' = dev \cup Overwrites /\ rendered' = TRUE /\ ticked' = cout
+               /\ UNCHANGED <<uiVars, rendVars, uipc, ureq, pbox, pquit, pvVars, wst, dtimer, cst, ckind, cout, fin, refbox, delbox, winVars,
+                              endVars, alive, lastStarted, lastEnq>>
 
 (* Watcher goroutine *)
 WatchEnter == /\ wst = "starting" /\ ~procExited /\ wst' = "selecting"
-              /\ UNCHANGED <<uiVars, rendVars, uipc, ureq, pbox, pquit, pvVars, cmdVars, dbox, shown, endVars, alive, lastStarted, lastEnq, dev>>
+              /\ UNCHANGED <<uiVars, rendVars, uipc, ureq, pbox, pquit, pvVars, dtimer, cmdVars, boxVars, winVars, endVars, alive, lastStarted, lastEnq, dev>>
 WatchFinish == /\ wst \in {"selecting", "delaying"} /\ fin /\ ~procExited /\ wst' = "done"
-               /\ UNCHANGED <<uiVars, rendVars, uipc, ureq, pbox, pquit, pvVars, cmdVars, dbox, shown, endVars, alive, lastStarted, lastEnq, dev>>
+               /\ UNCHANGED <<uiVars, rendVars, uipc, ureq, pbox, pquit, pvVars, dtimer, cmdVars, boxVars, winVars, endVars, alive, lastStarted, lastEnq, dev>>
 WatchTimer == /\ wst = "delaying" /\ ~procExited /\ wst' = "killing"           \* previewCancelWait elapsed
-              /\ UNCHANGED <<uiVars, rendVars, uipc, ureq, pbox, pquit, pvVars, cmdVars, dbox, shown, endVars, alive, lastStarted, lastEnq, dev>>
+              /\ UNCHANGED <<uiVars, rendVars, uipc, ureq, pbox, pquit, pvVars, dtimer, cmdVars, boxVars, winVars, endVars, alive, lastStarted, lastEnq, dev>>
 WatchKill == /\ wst = "killing" /\ ~procExited /\ Killed                       \* util.KillCommand
-             /\ UNCHANGED <<uiVars, rendVars, uipc, ureq, pbox, pquit, pvVars, ckind, cout, rendered, fin, dbox, shown, endVars,
+             /\ UNCHANGED <<uiVars, rendVars, uipc, ureq, pbox, pquit, pvVars, dtimer, ckind, cout, rendered, ticked, fin, boxVars, winVars, endVars,
                             lastStarted, lastEnq, dev>>
 WatchCtx == /\ wst = "selecting" /\ ctxDone /\ ~procExited /\ wst' = "done"       \* leaves without killing
-            /\ UNCHANGED <<uiVars, rendVars, uipc, ureq, pbox, pquit, pvVars, cmdVars, dbox, shown, endVars, alive, lastStarted, lastEnq, dev>>
+            /\ UNCHANGED <<uiVars, rendVars, uipc, ureq, pbox, pquit, pvVars, dtimer, cmdVars, boxVars, winVars, endVars, alive, lastStarted, lastEnq, dev>>
+(* the previewDelayed timer (armed when the watcher starts) fires while the watcher sits in its select *)
+WatchDelayed == /\ wst = "selecting" /\ dtimer /\ ~procExited
+                /\ dtimer' = FALSE /\ delbox' = pver
+                /\ UNCHANGED <<uiVars, rendVars, uipc, ureq, pbox, pquit, pvVars, wst, cmdVars, dbox, refbox, winVars, endVars, alive, lastStarted,
+                               lastEnq, dev>>
 
-(* The command (keeps going after fzf is gone) *)
-CmdOutput == /\ cst = "running" /\ ~cout /\ cout' = TRUE
-             /\ UNCHANGED <<uiVars, rendVars, uipc, ureq, pbox, pquit, pvVars, wst, cst, ckind, rendered, fin, dbox, shown, endVars,
+(* The command (keeps going after fzf is gone): writes its lines one by one *)
+CmdOutput == /\ cst = "running" /\ cout < NLines(preq) /\ cout' = cout + 1
+             /\ UNCHANGED <<uiVars, rendVars, uipc, ureq, pbox, pquit, pvVars, wst, dtimer, cst, ckind, rendered, ticked, fin, boxVars, winVars, endVars,
                             alive, lastStarted, lastEnq, dev>>
-CmdExit == /\ cst = "running" /\ ckind = "finite" /\ cout
+CmdExit == /\ cst = "running" /\ ckind = "finite" /\ cout = NLines(preq)
            /\ cst' = "exited" /\ alive' = {}
-           /\ UNCHANGED <<uiVars, rendVars, uipc, ureq, pbox, pquit, pvVars, wst, ckind, cout, rendered, fin, dbox, shown, endVars,
+           /\ UNCHANGED <<uiVars, rendVars, uipc, ureq, pbox, pquit, pvVars, wst, dtimer, ckind, cout, rendered, ticked, fin, boxVars, winVars, endVars,
                           lastStarted, lastEnq, dev>>
 
 -------------------------------------------------------------------------------
-User == Move \/ EditQuery \/ Toggle \/ TogglePreview \/ Exit
-System == Render \/ RefreshSet \/ Display \/ ExitKill \/ ExitCtx \/ ProcExit \/ Pick \/ Start \/ Eof \/ Reaped \/ TickDisplay
-          \/ WatchEnter \/ WatchFinish \/ WatchTimer \/ WatchKill \/ WatchCtx \/ CmdOutput \/ CmdExit
+User == Move \/ EditQuery \/ Toggle \/ TogglePreview \/ Scroll \/ Rewrap \/ Exit
+System == Render \/ RefreshSet \/ Display \/ Repaint \/ Loading \/ ExitKill \/ ExitCtx \/ ProcExit \/ Pick \/ Start \/ Eof \/ Reaped \/ TickDisplay
+          \/ WatchEnter \/ WatchFinish \/ WatchTimer \/ WatchKill \/ WatchCtx \/ WatchDelayed \/ CmdOutput \/ CmdExit
 Next == User \/ System
-Spec == Init /\ [][Next]_vars /\ WF_vars(System)
+(* the timer need not fire (commands are usually faster): no fairness for WatchDelayed *)
+Fair == Render \/ RefreshSet \/ Display \/ Repaint \/ Loading \/ ExitKill \/ ExitCtx \/ ProcExit \/ Pick \/ Start \/ Eof \/ Reaped \/ TickDisplay
+        \/ WatchEnter \/ WatchFinish \/ WatchTimer \/ WatchKill \/ WatchCtx \/ CmdOutput \/ CmdExit
+Spec == Init /\ [][Next]_vars /\ WF_vars(Fair)
 
 -------------------------------------------------------------------------------
 (* Properties (C20) *)
+Rows == {Blank} \cup {<<r, i>> : r \in [focus : 1..2, q : 0..1, sel : 0..1], i \in 1..4}
 TypeOK == /\ uipc \in {"idle", "set", "quit2", "quit3", "quit4"}
           /\ pst \in {"wait", "picked", "running", "reaping", "stopped"}
           /\ wst \in {"none", "starting", "selecting", "delaying", "killing", "done"}
           /\ cst \in {"none", "running", "exited", "killed"}
-          /\ dev \subseteq {"LostCancel", "LostKillAtExit", "ExitBeforeKill", "StaleAfterShow"}
+          /\ dev \subseteq {"LostCancel", "LostKillAtExit", "ExitBeforeKill", "StaleAfterShow", "StaleRows", "LostOffsetReset", "LateLoading"}
+          /\ DOMAIN screen = 1..H /\ \A r \in 1..H : screen[r] \in Rows
+          /\ poff >= 0 /\ cout >= 0 /\ ticked <= cout
 (* superseded commands are terminated before the next one starts: at most one process group alive at any time *)
 OneAlive == Cardinality(alive) <= 1 /\ (alive # {} => alive = {pver} /\ cst = "running")
 (* the window never shows output of a command newer or other than one that was started; displays arrive in order *)
-ShownIsStarted == shown # None => shown.ver <= pver
-Quiescent == ~ENABLED System
+ShownIsStarted == shown.ver <= pver
+(* a row never shows anything but a line of a command that was started for a request the terminal announced *)
+Quiescent == ~ENABLED Fair
 (* once nothing moves any more: the command started last is the one for the line under the cursor with the current  *)
-(* query and selection, its output is what the window shows, and a command still alive is that (never-ending) one;   *)
-(* after the end of the session no command is alive.  (Nothing is claimed while the preview window is hidden.)        *)
+(* query and selection, ITS OUTPUT IS WHAT THE WINDOW SHOWS - every row: the window holds the lines from the scroll  *)
+(* offset on, row by row, rows beyond the output are empty, and the offset lies inside the output - and a command   *)
+(* still alive is that (never-ending) one; after the end of the session no command is alive.                         *)
+(* (Nothing is claimed while the preview window is hidden.)                                                          *)
+ShowsOutputOf(r) == /\ shown.req = r /\ shown.ver = pver /\ shown.n = NLines(r)
+                    /\ screen = Window(r, NLines(r), poff)
+                    /\ poff < NLines(r) \/ (poff = 0 /\ NLines(r) = 0)
 CaughtUp == IF procExited THEN alive = {}
             ELSE visible => /\ lastStarted = CurReq
-                            /\ shown # None /\ shown.req = CurReq /\ shown.ver = pver /\ shown.out
-                            /\ pbox = None
+                            /\ ShowsOutputOf(CurReq)
+                            /\ pbox = None /\ dbox = None /\ ~refbox
 Convergence == (Quiescent /\ dev = {}) => CaughtUp
 ConvergenceStrict == Quiescent => CaughtUp                    \* violated: LostCancel (finding F6)
 (* the same with exactly one kind of deviation admitted: TLC's counterexamples show what each one leads to *)
 ConvergenceLostCancel == (Quiescent /\ ~procExited /\ dev \subseteq {"LostCancel"}) => CaughtUp      \* violated (F6, stale preview)
 ConvergenceStaleAfterShow == (Quiescent /\ ~procExited /\ dev \subseteq {"StaleAfterShow"}) => CaughtUp  \* violated (MaxUI >= 4)
+ConvergenceStaleRows == (Quiescent /\ ~procExited /\ dev \subseteq {"StaleRows"}) => CaughtUp        \* violated (F24, rows of an older preview)
+ConvergenceLostOffsetReset == (Quiescent /\ ~procExited /\ dev \subseteq {"LostOffsetReset"}) => CaughtUp
 ShowFixed == ShowBumpsVersion => "StaleAfterShow" \notin dev          \* with the fix the deviation cannot happen at all
+DelayedFixed == ~DelayedSetsVersion => "StaleRows" \notin dev         \* without the assignment in reqPreviewDelayed neither can this one
+(* the optimisation is sound whenever it is taken for lines of the request the rows were painted from: at every      *)
+(* moment the rows 2..H are a window of the lines of ONE request - the one recorded with them                         *)
+RowsOfOneRequest == (visible /\ "StaleRows" \notin dev) =>
+                       \A r \in 2..H : screen[r] = Blank \/ screen[r] = <<pd.req, pd.off + r>>
 ExitClean == (procExited /\ dev = {}) => alive = {}
 ExitCleanLostKill == (procExited /\ dev \subseteq {"LostKillAtExit"}) => (alive = {} \/ ckind = "finite")   \* violated (F6, survivor)
 ExitCleanStrict == procExited => (alive = {} \/ ckind = "finite")     \* violated: LostKillAtExit / ExitBeforeKill (finding F6)
-Liveness == <>[](~ENABLED System)
+Liveness == <>[](~ENABLED Fair)
 NoSurvivor == (<>(dev # {})) \/ [](procExited => <>(alive = {}))
 NoSurvivorStrict == [](procExited => <>(alive = {}))          \* violated with a never-ending command
 ================================================================================
